@@ -147,3 +147,111 @@ prop("C16",
      outside=["payload lengths other than the listed instances are covered end-to-end only by the inductive step + the size validation",
               "the real std HashMap is trusted to behave as a map", "four concurrently transmitting channels"],
      )
+
+_FLAGS16 = ["%02x" % (a | b | c | d) for a in (0, 1) for b in (0, 4) for c in (0, 8) for d in (0, 0x10)]
+prop("C12",
+     title="Authenticator data binary encoding follows the WebAuthn layout and round-trips",
+     harnesses=[
+         H("c12_to_vec_layout", T, bounds="all 2^32 counters and None, all 16 combinations of UP/UV/BE/BS, all rp-id hashes (SHA-256 stubbed to an arbitrary value)"),
+         H("c12_to_vec_layout_twin", T, twin=True, bounds="same"),
+         H("c12_setters_set_section_flags", T, bounds="all 16 extra flag combinations; empty credential id and default COSE key"),
+     ] + [H("c12_from_slice_flags_%s" % f, T, bounds="37-byte input, flag byte 0x%s, all hashes and counters" % f) for f in sorted(set(_FLAGS16))] + [
+         H("c12_from_slice_twin", T, twin=True, bounds="flag byte 0x1d"),
+         H("c12_from_slice_at_truncated_0", T, bounds="flag byte 0x41 (AT), 0 bytes after the header"),
+         H("c12_from_slice_at_truncated_1", T, bounds="flag byte 0x41, 1 byte after the header, all contents"),
+         H("c12_from_slice_at_truncated_16", T, bounds="flag byte 0x41, 16 bytes after the header (aaguid only)"),
+         H("c12_from_slice_at_truncated_17", T, bounds="flag byte 0x41, 17 bytes after the header (id length cut)"),
+         H("c12_flags_reserved_bits", T, bounds="all 256 flag bytes"),
+         H("c12_attested_credential_id_length_guard", T, bounds="every credential id length 0..=70000"),
+     ],
+     functions=["AuthenticatorData::{new,to_vec,from_slice,set_flags,set_attested_credential_data,set_make_credential_extensions,set_assertion_extensions,rp_id_hash}",
+                "AttestedCredentialData::new", "Flags::{from_bits,bits,try_from}"],
+     stubs=["passkey_types::crypto::sha256 -> arbitrary 32 bytes (kani::any)"],
+     explanation="header layout of to_vec and from_slice for all hashes/counters/flag combinations without sections; the two "
+                 "directions are composed through the shared 37-byte layout (to_vec's output bytes are asserted, from_slice is "
+                 "run on an array with exactly that layout); reserved bits, short inputs, id-length guard",
+     outside=["the attested-credential-data and extension sections (COSE key / CBOR via ciborium+coset on symbolic bytes, F6)",
+              "truncation or corruption inside those sections", "from_slice with a symbolic flag byte (made concrete per instance)"],
+     )
+
+prop("C17",
+     title="U2F registration and authentication messages are well-formed and verifiable",
+     harnesses=[
+         H("c17_register_response_encode_0_0", T, bounds="all public keys, empty key handle, 4-byte certificate, empty signature"),
+         H("c17_register_response_encode_8_8", T, bounds="all public keys, 8-byte key handle, 4-byte certificate, 8-byte signature, all contents"),
+         H("c17_register_response_encode_32_72", T, tier="thorough", bounds="32-byte key handle, 72-byte signature, all contents"),
+         H("c17_authentication_response_encode_0", T, bounds="all presence flags, all counters, empty signature"),
+         H("c17_authentication_response_encode_8", T, bounds="all presence flags, all counters, 8-byte signature, all contents"),
+         H("c17_authentication_response_encode_72", T, tier="thorough", bounds="72-byte signature"),
+         H("c17_version_encode_and_status_words", T, bounds="no input"),
+         H("c17_parse_register_frame", T, bounds="all challenges and applications, with and without Le"),
+         H("c17_parse_authenticate_frame", T, bounds="control byte in {3,7,8}, key handle 0..=8 bytes, all contents, with and without Le"),
+         H("c17_parse_version_frame", T, bounds="with and without Le; all 256 command bytes"),
+         H("c17_parse_twin", T, twin=True, bounds="any 82-byte frame that parses"),
+     ],
+     functions=["u2f::RegisterResponse::encode", "u2f::PublicKey::encode", "u2f::AuthenticationResponse::encode", "u2f::Version::encode",
+                "u2f::Request::try_from", "u2f::Command::from / into u8", "ResponseStatusWords -> u16"],
+     stubs=[],
+     explanation="byte-exact layout of the three response encoders and the request parser for symbolic field contents",
+     outside=["every signature clause (P-256)", "U2fApi::register / authenticate (async + crypto)", "key handles longer than 8 bytes"],
+     )
+
+AM = "authenticator::verif_proofs"
+prop("C04",
+     title="No credential is created or used without user consent; flags are truthful",
+     harnesses=[
+         H("c04_check_user_truth_table", A, module=AM, bounds="all (rk, up, uv) x verification capability {None, Some(false), Some(true)} x validation outcome {4 presence/verification results, every defined CTAP2 error}"),
+         H("c04_check_user_twin", A, module=AM, twin=True, bounds="same"),
+     ],
+     functions=["Authenticator::check_user (private async fn, driven by a single-poll executor)"],
+     stubs=["UserValidationMethod -> harness double with symbolic capability/outcome and a call log", "CredentialStore -> Option<Passkey> (unused by check_user)"],
+     explanation="complete truth table of the consent step as symbolic booleans/enums on the real check_user",
+     outside=["ordering of the consent step inside make_credential / get_assertion (E2, not built yet)",
+              "client-level mapping of userVerification to uv"],
+     )
+
+prop("C02",
+     title="Registration returns a credential that a standard relying party can verify",
+     harnesses=[
+         H("c02_choose_algorithm_first_supported", A, module=AM, bounds="preference lists of length 0..=4 over 6 algorithms; supported set [ES256] (shipped), [ES256,EdDSA], [EdDSA,ES256]"),
+         H("c02_credential_id_length_clamp", A, module=AM, bounds="all 256 requested lengths"),
+         H("c02_credential_id_length_twin", A, module=AM, twin=True, bounds="all 256"),
+     ],
+     functions=["Authenticator::choose_algorithm", "CredentialIdLength::from(u8)", "usize::from(CredentialIdLength)", "CredentialIdLength::default"],
+     stubs=["UserValidationMethod / CredentialStore doubles (unused)"],
+     explanation="two anchored kernels of C02 only: algorithm choice = first supported entry of the preference list; credential-id length clamped to 16..=64",
+     outside=["everything involving P-256 points, DER/COSE equality, SHA-256 of the RP ID, client data JSON, attestation object bytes, store contents after success (crypto and CBOR out of reach, F5-F7)"],
+     level_text="PARTIAL claim: only the algorithm-choice and credential-id-length kernels of C02 are decided; the registration result itself is outside the claim.",
+     )
+
+HM = "authenticator::extensions::hmac_secret::verif_proofs"
+prop("C09",
+     title="PRF results are the specified HMAC, per credential, and gated on verification",
+     harnesses=[
+         H("c09_calculate_hmac_secret_key_selection", A, module=HM, bounds="all 32-byte secrets and salts, one or two salts, uv on/off, second secret present/absent, both configurations"),
+         H("c09_calculate_hmac_secret_twin", A, module=HM, twin=True, bounds="one instance"),
+         H("c09_make_hmac_secret_storage", A, module=HM, bounds="configuration {none, UV-only, with non-UV} x on-make-credential flag x request {None, Some(false), Some(true)}"),
+         H("c09_make_prf_enabled_and_gating", A, module=HM, bounds="all configurations x stored secrets present/absent x second secret x inputs present/absent x uv; all secrets and salts"),
+         H("c09_get_prf_default_inputs", A, module=HM, bounds="all configurations x stored/absent x inputs present/absent x uv; default inputs only (eval), all secrets and salts"),
+     ],
+     functions=["calculate_hmac_secret", "Authenticator::{make_hmac_secret, make_prf, get_prf}", "select_salts (default-input path)", "HmacSecretSaltOrOutput::{new, first, second}"],
+     stubs=["passkey_types::crypto::hmac_sha256 -> tagged function (output names key and message bytes/lengths); the oracle calls the same function, so the statement is 'HMAC keyed with the right secret over the right salt', HMAC itself trusted",
+            "passkey_types::rand::random_vec -> vector of the requested length with a symbolic fill byte"],
+     explanation="which secret keys the HMAC and over which message, when secrets are stored, what 'enabled' reports - for all configurations and flags",
+     outside=["evalByCredential on both sides (std HashMap, F4)", "the identity of HMAC-SHA-256 itself", "client-side make_salt / request validation (planned)", "which uv value the ceremonies pass to the extension code (E2)"],
+     )
+
+CS = "credential_store::verif_proofs"
+prop("C11",
+     title="Discoverability follows request and store capability and is reported truthfully",
+     harnesses=[
+         H("c11_is_passkey_discoverable_table", A, module=CS, bounds="3 capabilities x rk"),
+         H("c11_get_info_rk_option", A, module=CS, bounds="3 store capabilities x verification capability x presence capability"),
+         H("c11_shipped_option_store_capability", A, module=CS, bounds="no input"),
+     ],
+     functions=["DiscoverabilitySupport::is_passkey_discoverable", "Authenticator::get_info", "<Option<Passkey> as CredentialStore>::get_info"],
+     stubs=["CredentialStore / UserValidationMethod doubles with symbolic capability"],
+     explanation="complete product of capability and request values as symbolic enums",
+     outside=["Client::map_rk and credProps (planned in passkey-client harnesses)", "storage of the user handle in make_credential (E2)"],
+     )
+
